@@ -288,10 +288,23 @@ class Extract:
                 body = [x for x in kids(m["node"]) if x.get("kind") == "CompoundStmt"]
                 inits = [x for x in kids(m["node"]) if x.get("kind") == "CXXCtorInitializer"]
                 ir = ("skip",)
+                # aliases (pointers / references / iterators into member data) held in local variables and parameters
+                self.tainted = {}
+                self.vartype = {}
+                params = [x for x in kids(m["node"]) if x.get("kind") == "ParmVarDecl"]
+                for pv in params:
+                    self.vartype[pv.get("id")] = pv
+                if body and cls != "::":
+                    self.collect_taint(body[0])
                 for ini in inits:
                     ir = seq(ir, self.ctor_init(cls, ini))
                 if body:
                     ir = seq(ir, self.stmt(body[0]))
+                # an alias stored through a reference parameter is visible to the caller after every lock of this function is gone
+                for pv in params:
+                    if pv.get("id") in self.tainted and qt(pv).rstrip().endswith("&"):
+                        for (kind, loc) in sorted(self.tainted[pv["id"]]):
+                            ir = seq(ir, ("acc", kind, loc))
                 m["ir"] = ir
                 if m["kind"] == "method" and re.search(r"[&*]\s*$|iterator", m["ret"]) and has_access(ir):
                     self.unk(m["file"], m["b"], "%s::%s returns %s and touches member data (a reference could outlive the lock scope)" % (cls, m["name"], m["ret"]))
@@ -316,6 +329,104 @@ class Extract:
             if fl and fl[1]["role"] in ("data", "linkptr", "atomic"):
                 ir = seq(ir, ("acc", "write", "%s::%s" % (fl[0], fld)))
         return ir
+
+    # -- aliases into member data ----------------------------------------------------------------------------
+    ALIAS_RX = re.compile(r"\*|iterator|reference_wrapper|string_view|\bspan\s*<")
+
+    def alias_capable(self, node, strip_ref):
+        t = qt(node)
+        d = (node.get("type") or {}).get("desugaredQualType", "")
+        if not strip_ref and t.rstrip().endswith("&"):
+            return True
+        for x in (t, d):
+            x = re.sub(r"\s*&&?\s*$", "", x)
+            if self.ALIAS_RX.search(x):
+                return True
+        return False
+
+    def alias_kind(self, node):
+        t = qt(node) + " " + (node.get("type") or {}).get("desugaredQualType", "")
+        return "read" if re.search(r"\bconst\b[^*&]*[*&]|const_iterator|^const\b", t) else "write"
+
+    def mentioned(self, e, fields, vars_):
+        """data fields of *this and variables referenced anywhere below `e`"""
+        k = e.get("kind")
+        if k == "MemberExpr" and kids(e) and is_this(kids(e)[0]):
+            fl = self.fields_of(self.cur["cls"]).get(e.get("name"))
+            if fl and fl[1]["role"] in ("data", "linkptr"):
+                t = fl[1]["type"]
+                ptr = bool(self.ALIAS_RX.search(re.sub(r"\s*&&?\s*$", "", t))) or fl[1]["role"] == "linkptr"
+                fields.add("%s::%s%s" % (fl[0], e["name"], "->*" if ptr else ""))
+        if k == "DeclRefExpr":
+            rd = e.get("referencedDecl") or {}
+            if rd.get("kind") in ("VarDecl", "ParmVarDecl", "BindingDecl"):
+                vars_.add(rd.get("id"))
+        for c in kids(e):
+            self.mentioned(c, fields, vars_)
+
+    def collect_taint(self, body):
+        """fixpoint: a variable of pointer / reference / iterator type that occurs in one full-expression together with member data
+        (or with another alias) is an alias of that data.  Over-approximates (fail closed): comparing a pointer with a member
+        also taints it."""
+        roots = []
+
+        def walk(n):
+            k = n.get("kind", "")
+            if k == "VarDecl":
+                self.vartype[n.get("id")] = n
+                roots.append(("decl", n))
+                return
+            if k.endswith("Stmt") or k in ("CXXCatchStmt",):
+                for c in kids(n):
+                    walk(c)
+                return
+            roots.append(("expr", n))
+        walk(body)
+        changed = True
+        rounds = 0
+        while changed and rounds < 20:
+            changed = False
+            rounds += 1
+            for (kind, n) in roots:
+                fields, vs = set(), set()
+                self.mentioned(n, fields, vs)
+                locs = set((None, f) for f in fields)
+                for v in vs:
+                    for (k2, l2) in self.tainted.get(v, ()):
+                        locs.add((None, l2))
+                if not locs:
+                    continue
+                targets = []
+                if kind == "decl":
+                    if self.alias_capable(n, strip_ref=False) and not any(lt in qt(n) for lt in ("lock_guard", "unique_lock", "scoped_lock")):
+                        targets.append(n)
+                    # a lambda / nested declaration inside the initialiser is handled through `vs`
+                for v in vs:
+                    vd = self.vartype.get(v)
+                    if vd is not None and vd is not n and self.alias_capable(vd, strip_ref=True):
+                        targets.append(vd)
+                for vd in targets:
+                    ak = self.alias_kind(vd)
+                    cur = self.tainted.setdefault(vd.get("id"), set())
+                    for (_, l) in locs:
+                        if (ak, l) not in cur and not (ak == "read" and ("write", l) in cur):
+                            cur.add((ak, l))
+                            changed = True
+                # an alias to member data stored into another member
+                if kind == "expr":
+                    self.member_alias_store(n)
+
+    def member_alias_store(self, n):
+        if n.get("kind") == "BinaryOperator" and n.get("opcode") == "=" and len(kids(n)) == 2:
+            lhs, rhs = kids(n)
+            if lhs.get("kind") == "MemberExpr" and kids(lhs) and is_this(kids(lhs)[0]) and self.alias_capable(lhs, strip_ref=True):
+                fields, vs = set(), set()
+                self.mentioned(rhs, fields, vs)
+                if fields or any(self.tainted.get(v) for v in vs):
+                    self.unk(self.cur["file"], self.off(n), "a pointer / iterator into member data is stored in the member %s" % lhs.get("name"))
+        for c in kids(n):
+            if not c.get("kind", "").endswith("Stmt"):
+                self.member_alias_store(c)
 
     def off(self, o):
         r = (o.get("range") or {}).get("begin") or {}
@@ -549,6 +660,12 @@ class Extract:
             return self.generic(e)
         if k == "CXXThisExpr":
             return ("skip",)
+        if k == "DeclRefExpr":
+            rid = (e.get("referencedDecl") or {}).get("id")
+            ir = ("skip",)
+            for (kind, loc) in sorted(getattr(self, "tainted", {}).get(rid, ())):
+                ir = seq(ir, ("acc", kind, loc))      # use of an alias = access to what it points into
+            return ir
         if k == "CXXConstructExpr" and any(lt in qt(e) for lt in ("lock_guard", "unique_lock", "scoped_lock")):
             self.unk(self.cur["file"], self.off(e), "lock object constructed outside a declaration")
         return self.generic(e)
